@@ -44,3 +44,37 @@ Qed.
 
 Theorem order_accepts : forall o cfg e ib, ok step_order m_init (untime (run1 o cfg e ib)).
 Proof. intros. unfold run1. apply safe_sound. apply listen_order_safe. Qed.
+
+(* ---- what acceptance means: every event passed the automaton and the check in the state
+   reached by the events before it ---- *)
+Lemma run_split {S} (step : S -> tev -> option S) st pre ev post :
+  run step st (pre ++ ev :: post) <> None ->
+  exists st1 st2, run step st pre = Some st1 /\ step st1 ev = Some st2.
+Proof.
+  revert st; induction pre as [|x pre IH]; intros st H; cbn [app run] in *.
+  - destruct (step st ev) as [st2|] eqn:E; [|congruence]. exists st, st2. auto.
+  - destruct (step st x) as [st'|]; [|congruence]. apply IH in H. exact H.
+Qed.
+
+Lemma step_with_inv chk st ev st2 :
+  step_with chk st ev = Some st2 ->
+  (internal_at (q st) ev = true /\ st2 = st)
+  \/ (exists q', delta (q st) ev = Some q' /\ chk st ev = true /\ st2 = {| q := q'; h := ev :: h st |}).
+Proof.
+  unfold step_with. destruct (internal_at (q st) ev); [intros H; inversion H; auto|].
+  destruct (delta (q st) ev) as [q'|]; [|discriminate].
+  destruct (chk st ev) eqn:E; [|discriminate]. intros H; inversion H. right. exists q'. auto.
+Qed.
+
+Theorem accepted_event_checked chk tr pre ev post :
+  ok (step_with chk) m_init tr -> tr = pre ++ ev :: post ->
+  exists st, run (step_with chk) m_init pre = Some st /\
+    (internal_at (q st) ev = true \/ exists q', delta (q st) ev = Some q' /\ chk st ev = true).
+Proof.
+  intros Hok ->. destruct (run_split _ _ _ _ _ Hok) as (st1 & st2 & H1 & H2).
+  exists st1. split; [exact H1|]. destruct (step_with_inv _ _ _ _ H2) as [[Hi _]|(q' & Hd & Hc & _)]; [left; exact Hi|].
+  right. exists q'. auto.
+Qed.
+
+Lemma ok_accepts {S} (step : S -> tev -> option S) st tr : ok step st tr -> accepts step st tr = true.
+Proof. unfold ok, accepts. destruct (run step st tr); [reflexivity | congruence]. Qed.
